@@ -221,6 +221,12 @@ def gen_sizes(run):
         cases.append({"text": "10 A=" + "INT(" * min(n, 60) + "1" + ")" * min(n, 60) + "\n", "opts": {}, "origin": f"int{n}", "gen": "size"})
         cases.append({"text": "10 " + "IF A THEN " * min(n, 60) + "B=1\n", "opts": {}, "origin": f"if{n}", "gen": "size"})
         cases.append({"text": "10 A=1" + "+1" * n + "\n", "opts": {}, "origin": f"sum{n}", "gen": "size"})
+    # numbers with thousands of digits wherever a number can stand (Python refuses int() of more than 4300 digits)
+    for n in (100, 4300, 4301, 5000, 20000):
+        big = "9" * n
+        for t in (f"{big} PRINT 1\n", f"10 GOTO {big}\n", f"10 GOSUB {big}\n", f"10 ON A GOTO 5,{big}\n5 END\n", f"10 IF A THEN {big} ELSE {big}\n", f"10 A={big}\n", f"10 A=.{big}\n", f"10 A=1E{big}\n",
+                  f"10 DATA {big}\n", f"10 DIM M({big})\n", f"10 A=&H{big}\n", f"10 ON ERR GOTO {big}\n", f"10 PRINT @ {big} , 1\n", "0" * n + "7 PRINT 1\n", f"10 CLEAR {big}\n"):
+            cases.append({"text": t, "opts": {}, "origin": f"digits{n}", "gen": "size"})
     for n in ([500, 1000, 3000] if quick else [500, 1000, 2000, 3000, 6000]):
         cases.append({"text": "10 A=1" + "+1" * n + "\n", "opts": {}, "origin": f"sum{n}", "gen": "size"})
         cases.append({"text": '10 A$="X"' + '+"X"' * n + "\n", "opts": {}, "origin": f"cat{n}", "gen": "size"})
